@@ -569,7 +569,14 @@ func cdRoundTrip(codec string, kinds []string, view sessions.VerifSessionView, m
 		want, rec.InDomain = cdJsonExpect(in, mode)
 	}
 	cdLoadMode = 0
-	rec.SpecOK = !rec.InDomain || cdSameResult(rec.Out, want)
+	got := rec.Out
+	if codec == "json" && got.Class == "ok" {
+		// the property promises the instants to the second
+		fl := *got.Sess
+		fl.Created.Nsec, fl.Access.Nsec = 0, 0
+		got.Sess = &fl
+	}
+	rec.SpecOK = !rec.InDomain || cdSameResult(got, want)
 	if rec.InDomain {
 		rec.Want = &want
 	}
